@@ -80,6 +80,9 @@ impl Partition {
             return Ok(Vec::new());
         }
 
+        // When the oldest segments have been removed, the earliest retained message is where the
+        // requested range starts, otherwise the last segments of the range would be filtered out.
+        let start_offset = std::cmp::max(start_offset, self.segments[0].start_offset);
         let end_offset = self.get_end_offset(start_offset, count);
         if let Some(cached) = self.try_get_messages_from_cache(start_offset, end_offset) {
             return Ok(cached);
